@@ -136,6 +136,10 @@ pub(crate) fn string(input: &[u8]) -> IResult<&[u8], Cow<'_, str>> {
             }
         }
     }
+    // the closing quote is missing
+    if i >= input.len() {
+        return Err(nom::Err::Error(NomError::new(input, ErrorKind::Char)));
+    }
     if i > 1 {
         if escapes == 0 {
             if let Ok(s) = std::str::from_utf8(&input[1..i]) {
